@@ -37,6 +37,17 @@ theorem verbNode_frag_leaf (e : Env) (k : Kind) (t : String) (a : Attrs) (h : k.
 
 /-! ### verbatim emission -/
 
+theorem verb_inner_carries' (e : Env) (k : Kind) (cs : List ANode) (a : Attrs) (hd : a.disabled = true)
+    (hx : k.isExpr = true ∨ k = .destructuring) :
+    Carries (e.verbNode (.inner k cs a)) (specAll (.inner k cs a)) := by
+  have hv : isVerbatimNode k cs a = true := by
+    rcases hx with hx | hx
+    · simp [isVerbatimNode, hd, hx]
+    · simp [isVerbatimNode, hd, hx]
+  refine (Carries.mkText e.wd .verbatim _).congr ?_
+  apply Streams.ext' <;>
+    simp [specAll, specToks, specCmts, specProse, specLit, specVerb, hv, tagS, Pretty.charsOf, ANode.intoText, Pretty.keepOf]
+
 theorem verb_inner_carries (e : Env) (k : Kind) (cs : List ANode) (a : Attrs) (hd : a.disabled = true) (hx : k.isExpr = true) :
     Carries (e.verbNode (.inner k cs a)) (specAll (.inner k cs a)) := by
   have hv : isVerbatimNode k cs a = true := by simp [isVerbatimNode, hd, hx]
@@ -102,6 +113,7 @@ def listChildrenOK (k : Kind) (cs : List ANode) : Bool :=
           | _ :: blocks => blocks.all isBlockShape
           | [] => false)
       else cs.all isBlockShape
+  | .params | .destructuring => cs.all fun x => isParam x || isPassable x
   | .funcCall =>
       -- callee and arguments; dot chains (callee a field access) and `table`/`grid` are laid out by other code
       (match cs with
@@ -116,7 +128,7 @@ def inFrag : ANode → Bool
   | .leaf k t a => ANode.tokensAreLeaves (.leaf k t a) && (!k.isExpr || k.isFragLeaf || (k == .parbreak && !a.disabled)) && !k.isInnerKind
   | .inner k cs _ =>
     (k.isFragFlow || k.isFragElem || (k.isFragList && listChildrenOK k cs) || k == .code ||
-      ((k.isFragWrap || k == .markup || k == .args || k == .funcCall) && listChildrenOK k cs) || k.isFragItem || k == .setRule) && inFragL cs
+      ((k.isFragWrap || k == .markup || k == .args || k == .funcCall || k == .params || k == .destructuring) && listChildrenOK k cs) || k.isFragItem || k == .setRule || k == .closure || k == .forLoop) && inFragL cs
 def inFragL : List ANode → Bool
   | [] => true
   | c :: cs => inFrag c && inFragL cs
@@ -124,7 +136,7 @@ end
 
 theorem fragKind_inner (k : Kind) (cs : List ANode)
     (h : (k.isFragFlow || k.isFragElem || (k.isFragList && listChildrenOK k cs) || k == .code ||
-      ((k.isFragWrap || k == .markup || k == .args || k == .funcCall) && listChildrenOK k cs) || k.isFragItem || k == .setRule) = true) : k.isInnerKind = true := by
+      ((k.isFragWrap || k == .markup || k == .args || k == .funcCall || k == .params || k == .destructuring) && listChildrenOK k cs) || k.isFragItem || k == .setRule || k == .closure || k == .forLoop) = true) : k.isInnerKind = true := by
   cases k <;> simp_all [Kind.isFragFlow, Kind.isFragElem, Kind.isFragList, Kind.isFragWrap, Kind.isFragItem, Kind.isInnerKind]
 
 mutual
@@ -324,6 +336,98 @@ theorem args_frag (e : Env) (r : Rec) (hr : RecOK r Q) (ctx : Ctx) (hctx : NM ct
       refine Post.bind (Q := fun x => Carries x (specAllL cs)) (Post.bind (hblocks cs (fun b hb => hb) hch) (fun docs hd => Post.pure hd)) (fun x hx => Post.pure ?_)
       simpa using Carries.nil.app hx
 
+theorem optionalParen_carries (e : Env) (body : Doc) (sb : Streams) (hb : Carries body sb) (d0 d1 : String)
+    (h0 : d0.toList.filter Pretty.keepChar = []) (h1 : d1.toList.filter Pretty.keepChar = []) :
+    Carries (optionalParen e body d0 d1) sb := by
+  unfold optionalParen
+  have hop : Carries (Doc.falt (e.soft d0 ++ Twin.hardline) Doc.nil) {} :=
+    Carries.falt (by simpa using (Carries.soft e d0 h0).app Carries.hardline) Carries.nil
+  have hcl : Carries (Doc.falt (Twin.hardline ++ e.soft d1) Doc.nil) {} :=
+    Carries.falt (by simpa using Carries.hardline.app (Carries.soft e d1 h1)) Carries.nil
+  simpa using (((hop.app hb).nstTab).app hcl).grp
+
+theorem exprWithOptionalParen_frag (e : Env) (r : Rec) (hr : RecOK r Q) (ctx : Ctx) (hctx : NM ctx) (x : ANode) (useBraces : Bool)
+    (hx : isExpr x = true) (hq : inFrag x = true) :
+    Post (exprWithOptionalParen e r ctx x useBraces) (fun d => Carries d (specAll x)) := by
+  unfold exprWithOptionalParen
+  split
+  · exact hr.expr ctx x hctx hx hq
+  · cases useBraces
+    · simp only [Bool.false_eq_true, ↓reduceIte]
+      exact Post.bind (hr.expr _ x (NM.withMode _ (by decide)) hx hq)
+        (fun d hd => Post.pure (optionalParen_carries e d _ hd "(" ")" (by decide) (by decide)))
+    · simp only [↓reduceIte]
+      exact Post.bind (hr.expr _ x (NM.withMode _ (by decide)) hx hq)
+        (fun d hd => Post.pure (optionalParen_carries e d _ hd "{" "}" (by decide) (by decide)))
+
+/-- The item checker of parameter lists and destructuring patterns. -/
+theorem convParam_checker (e : Env) (r : Rec) (hr : RecOK r Q) :
+    CheckerS (convParam e r) specAll (fun x => inFrag x = true ∧ (isParam x = true ∨ isPassable x = true)) :=
+  checker_ok (convParam e r) isParam
+    (fun c x hnm hqx hax => by
+      unfold convParam
+      unfold isParam at hax
+      simp only [Bool.or_eq_true, beq_iff_eq] at hax
+      rcases hax with (h | h) | h
+      · rw [h]
+        exact Post.bind (elem_carries e r c hnm x hqx (by rw [h]; rfl) false _ (namedProducer_ok e r hr)) (fun d hd => Post.pure ⟨d, rfl, hd⟩)
+      · rw [h]
+        exact Post.bind (elem_carries e r c hnm x hqx (by rw [h]; rfl) () _ (spreadProducer_ok e r hr)) (fun d hd => Post.pure ⟨d, rfl, hd⟩)
+      · have h1 : x.kind ≠ .named := by
+          intro hk; unfold isPattern isExpr at h; rw [hk] at h; simp [Kind.isExpr] at h
+        have h2 : x.kind ≠ .spread := by
+          intro hk; unfold isPattern isExpr at h; rw [hk] at h; simp [Kind.isExpr] at h
+        split
+        · rename_i hk; exact absurd hk h1
+        · rename_i hk; exact absurd hk h2
+        · simp only [h, ↓reduceIte]
+          exact Post.bind (hr.pattern c x hnm h hqx) (fun d hd => Post.pure ⟨d, rfl, hd⟩))
+    (fun c x hax => by
+      unfold isParam at hax
+      simp only [Bool.or_eq_false_iff, beq_eq_false_iff_ne] at hax
+      unfold convParam
+      split
+      · rename_i hk; exact absurd hk hax.1.1
+      · rename_i hk; exact absurd hk hax.1.2
+      · simp [hax.2])
+
+theorem param_no_hash (x : ANode) (h : isParam x = true ∨ isPassable x = true) : x.kind ≠ .hash :=
+  no_hash_of isParam (fun y hy hk => by
+    unfold isParam isPattern isExpr at hy; rw [hk] at hy; simp [Kind.isExpr] at hy) x h
+
+/-- `convert_params` / `convert_destructuring` on a node of the fragment. -/
+theorem paramList_frag (e : Env) (r : Rec) (hr : RecOK r Q) (ctx : Ctx) (k : Kind) (cs : List ANode) (a : Attrs)
+    (hk : k = .params ∨ k = .destructuring) (hd : k = .destructuring → a.disabled = false) (hq : inFrag (.inner k cs a) = true) :
+    (∀ isUnnamed, Post (convParams e r ctx (.inner k cs a) isUnnamed) (fun d => Carries d (specAll (.inner k cs a)))) ∧
+    Post (convDestructuring e r ctx (.inner k cs a)) (fun d => Carries d (specAll (.inner k cs a))) := by
+  simp only [inFrag, Bool.and_eq_true] at hq
+  have hch : listChildrenOK k cs = true := by
+    have h1 := hq.1
+    rcases hk with rfl | rfl <;>
+      (simp [Kind.isFragFlow, Kind.isFragElem, Kind.isFragList, Kind.isFragWrap, Kind.isFragItem] at h1; exact h1)
+  have hall : ∀ x ∈ cs, inFrag x = true ∧ (isParam x = true ∨ isPassable x = true) := by
+    intro x hx
+    refine ⟨inFragL_mem hq.2 hx, ?_⟩
+    have hc : (cs.all fun x => isParam x || isPassable x) = true := by
+      rcases hk with rfl | rfl <;> simpa [listChildrenOK] using hch
+    simpa using List.all_eq_true.mp hc x hx
+  have hspec : specAll (.inner k cs a) = specAllL cs :=
+    specAll_inner k cs a (by rcases hk with rfl | rfl <;> simp [isVerbatimNode, hd, Kind.isExpr]) (by rcases hk with rfl | rfl <;> decide)
+  obtain ⟨sp0, sp1, sp2, _, _, _⟩ := soft_paren e
+  rw [hspec]
+  constructor
+  · intro isUnnamed
+    unfold convParams
+    simp only [ANode.children]
+    exact list_construct_carries e _ (convParam e r) _ (convParam_checker e r hr) (NM.withMode _ (by decide)) _ ⟨rfl, rfl, rfl⟩
+      (fun ls => ls.alwaysFoldIf _) (fun ls => by unfold LS.alwaysFoldIf; split <;> rfl) _ sp2 sp0 sp1 cs hall
+      (fun x hx => param_no_hash x (hall x hx).2)
+  · unfold convDestructuring
+    simp only [ANode.children]
+    exact list_construct_carries e _ (convParam e r) _ (convParam_checker e r hr) (NM.withMode _ (by decide)) _ ⟨rfl, rfl, rfl⟩
+      (fun ls => ls.alwaysFoldIf _) (fun ls => by unfold LS.alwaysFoldIf; split <;> rfl) _ sp2 sp0 sp1 cs hall
+      (fun x hx => param_no_hash x (hall x hx).2)
+
 theorem specAll_underscore_leaf (t : String) (a : Attrs) : specAll (.leaf .underscore t a) = tagS .tok t := by
   apply Streams.ext' <;> simp [specAll, specToks, specCmts, specProse, specLit, specVerb, isCommentKind, tagS, Pretty.charsOf,
     Pretty.keepOf, leafTag, Kind.isExpr]
@@ -344,6 +448,7 @@ theorem leaf_expr_frag (e : Env) (r : Rec) (ctx : Ctx) (k : Kind) (t : String) (
     rw [specAll_parbreak_leaf]
     exact Post.pure (Carries.repeatN Carries.hardline _)
 
+set_option maxHeartbeats 1600000 in
 /-- One level of the knot: the expression entry point. -/
 theorem convExpr_frag (e : Env) (r : Rec) (hr : RecOK r Q) (ctx : Ctx) (hctx : NM ctx) (n : ANode) (hx : isExpr n = true) (hq : inFrag n = true) :
     Post (convExpr e r ctx n) (fun d => Carries d (specAll n)) := by
@@ -457,6 +562,67 @@ theorem convExpr_frag (e : Env) (r : Rec) (hr : RecOK r Q) (ctx : Ctx) (hctx : N
                  have : cs' = [] := by simpa [ANode.children] using he
                  subst this
                  rw [specAll_inner .markup [] a' (by simp [isVerbatimNode, Kind.isExpr]) (by decide)]; rfl⟩) false)
+      by_cases hclok : k = .closure
+      · subst hclok
+        show Post (convClosure e r ctx _) _
+        unfold convClosure
+        have hv : isVerbatimNode .closure cs a = false := by simp [isVerbatimNode, hd']
+        refine flow_construct_carries e ctx .closure cs a _ _ ?_ hv (by decide) hlex hqc hctx
+        intro la c child hnm hok
+        unfold closureProducer
+        split
+        · rename_i hk
+          exact Post.bind (synLeaf_carries e child "=" hok.1 (by rw [show child.kind = .eq by simpa using hk]; rfl)) (fun d hd => Post.pure hd)
+        · split
+          · rename_i hk
+            exact Post.bind (synLeaf_carries e child "=>" hok.1 (by rw [show child.kind = .arrow by simpa using hk]; rfl)) (fun d hd => Post.pure hd)
+          · split
+            · rename_i hk
+              simp only [Bool.and_eq_true, beq_iff_eq] at hk
+              obtain ⟨t, a', hc⟩ := leaf_of_token hok.1 (by rw [hk.2]; rfl)
+              refine Post.pure ((Carries.mkText e.wd .lit child.text).congr ?_)
+              rw [hc, hk.2, specAll_frag_leaf .ident t a' rfl]; rfl
+            · split
+              · rename_i hk
+                simp only [Bool.and_eq_true, beq_iff_eq] at hk
+                have hcq : inFrag child = true := hok.2
+                cases child with
+                | leaf k' t' a' => simp only [ANode.kind] at hk; rw [hk.2] at hcq; simp [inFrag, Kind.isInnerKind] at hcq
+                | inner k' cs' a' =>
+                  simp only [ANode.kind] at hk
+                  obtain ⟨_, rfl⟩ := hk
+                  exact Post.bind ((paramList_frag e r hr c .params cs' a' (Or.inl rfl) (fun h => by cases h) hcq).1 _) (fun d hd => Post.pure hd)
+              · split
+                · rename_i hk
+                  simp only [Bool.and_eq_true] at hk
+                  exact Post.bind (exprWithOptionalParen_frag e r hr c hnm child _ hk.2 hok.2) (fun d hd => Post.pure hd)
+                · split
+                  · rename_i hk
+                    exact Post.pure (specAll_space child hok.1 (by simpa using hk))
+                  · exact Post.rejected _
+      by_cases hfork : k = .forLoop
+      · subst hfork
+        show Post (convForLoop e r ctx _) _
+        have hv : isVerbatimNode .forLoop cs a = false := by simp [isVerbatimNode, hd']
+        refine flow_construct_carries e ctx .forLoop cs a _ _ ?_ hv (by decide) hlex hqc hctx
+        intro la c child hnm hok
+        unfold forProducer
+        split
+        · rename_i hk
+          simp only [Bool.and_eq_true] at hk
+          exact Post.bind (hr.pattern c child hnm hk.2 hok.2) (fun d hd => Post.pure hd)
+        · split
+          · rename_i hk
+            simp only [Bool.and_eq_true] at hk
+            exact Post.bind (exprWithOptionalParen_frag e r hr c hnm child _ hk.2 hok.2) (fun d hd => Post.pure hd)
+          · split
+            · rename_i hk
+              simp only [Bool.and_eq_true] at hk
+              exact Post.bind (hr.expr c child hnm hk.2 hok.2) (fun d hd => Post.pure hd)
+            · split
+              · rename_i hk
+                exact Post.pure (specAll_space child hok.1 (by simpa using hk))
+              · exact Post.rejected _
       by_cases hcallk : k = .funcCall
       · -- a call: callee, then the arguments
         subst hcallk
@@ -777,20 +943,26 @@ theorem convPattern_frag (e : Env) (r : Rec) (hr : RecOK r Q) (ctx : Ctx) (hctx 
     split
     · exact Post.pure (Carries.mkText e.wd .tok "_")
     · refine Post.pure ((Carries.mkText e.wd .syn "_").congr (tagS_syn_eq_tok "_"))
-  · -- every other pattern of the fragment is an expression
+  · by_cases hdk : n.kind = .destructuring
+    · -- a destructuring pattern
+      cases n with
+      | leaf k t a => simp only [ANode.kind] at hdk; subst hdk; simp [inFrag, Kind.isInnerKind] at hq
+      | inner k cs a =>
+        simp only [ANode.kind] at hdk; subst hdk
+        unfold convPattern
+        refine Post.bind (Q := fun _ => True) (fun _ _ _ _ => trivial) (fun _ _ => ?_)
+        split
+        · rename_i hd
+          exact Post.pure (verb_inner_carries' e _ cs a (by simpa [ANode.attrs] using hd) (Or.inr rfl))
+        · rename_i hd
+          exact (paramList_frag e r hr ctx .destructuring cs a (Or.inr rfl) (fun _ => by simpa [ANode.attrs] using hd) hq).2
+    -- every other pattern of the fragment is an expression
     have hx : isExpr n = true := by
       unfold isPattern at hp
       simp only [Bool.or_eq_true, beq_iff_eq] at hp
       rcases hp with (h | h) | h
       · exact absurd h hu
-      · exfalso
-        cases n with
-        | leaf k t a =>
-          simp only [ANode.kind] at h; subst h
-          simp [inFrag, Kind.isInnerKind] at hq
-        | inner k cs a =>
-          simp only [ANode.kind] at h; subst h
-          simp [inFrag, Kind.isFragFlow, Kind.isFragElem, Kind.isFragList, Kind.isFragWrap, Kind.isFragItem] at hq
+      · exact absurd h hdk
       · exact h
     have hk2 : n.kind ≠ .destructuring := by intro h; unfold isExpr at hx; rw [h] at hx; cases hx
     have hexpr := convExpr_frag e r hr ctx hctx n hx hq
